@@ -30,19 +30,44 @@ def applicable_cells(pm: ProtocolModel):
 
 
 def terminal_statuses(prog: Program) -> set[str]:
-    """The terminal set, read from ExecutionState.track_replay's status set literal."""
-    fn = prog.func("state", "ExecutionState.track_replay")
+    """The terminal set: the OperationStatus set literal used by the replay tracking of ExecutionState
+    (track_replay or a helper it calls; any method of the class as a fallback)."""
+    sc = prog.cls("state", "ExecutionState")
+
+    def sets_in(fn):
+        best: set[str] = set()
+        for node in ast.walk(fn.node):
+            if isinstance(node, (ast.Set, ast.Tuple, ast.List)):
+                names = set()
+                for e in node.elts:
+                    if isinstance(e, ast.Attribute) and isinstance(e.value, ast.Name) and e.value.id == "OperationStatus":
+                        names.add(e.attr)
+                if len(names) > len(best):
+                    best = names
+        return best
+
+    tr = sc.methods.get("track_replay")
+    todo = [tr] if tr is not None else []
+    seen = set()
     best: set[str] = set()
-    for node in ast.walk(fn.node):
-        if isinstance(node, (ast.Set, ast.Tuple, ast.List)):
-            names = set()
-            for e in node.elts:
-                if isinstance(e, ast.Attribute) and isinstance(e.value, ast.Name) and e.value.id == "OperationStatus":
-                    names.add(e.attr)
-            if len(names) > len(best):
-                best = names
+    while todo:
+        f = todo.pop()
+        if f.fq in seen:
+            continue
+        seen.add(f.fq)
+        b = sets_in(f)
+        if len(b) > len(best):
+            best = b
+        for _, m in self_method_calls(f.node):
+            if m in sc.methods:
+                todo.append(sc.methods[m])
     if len(best) < 2:
-        raise AnalysisError("terminal status set not found in ExecutionState.track_replay")
+        for f in sc.methods.values():
+            b = sets_in(f)
+            if len(b) > len(best) and "SUCCEEDED" in b:
+                best = b
+    if len(best) < 2:
+        raise AnalysisError("terminal status set not found in ExecutionState")
     return best
 
 
